@@ -102,14 +102,14 @@ theorem op_cuts {d es tail} (h : Rep d es tail) (op : Op) (initSize : Nat)
 
 theorem cuts_from (initSize : Nat) : ∀ (ops : List Op) {d es tail}, Rep d es tail →
     d.used + need (keys es) ops < 2147483648 →
-    ∃ d' tr, runFrom initSize d ops = .ok (d', tr) ∧
+    ∃ d' tr, runFrom initSize d ops = .ok (d', tr) ∧ applyEffects (some d.file) tr = some d'.file ∧
       ∀ s ∈ states (some d.file) tr, ∃ file esx, s = some file ∧ CutRep file esx ∧
         PrefixFrom (triples es) (ops.map toSpec) (triples esx) := by
   intro ops
   induction ops with
   | nil =>
     intro d es tail h _
-    refine ⟨d, [], rfl, ?_⟩
+    refine ⟨d, [], rfl, rfl, ?_⟩
     intro s hs
     simp only [states, List.mem_singleton] at hs
     exact ⟨d.file, es, hs, ⟨_, _, h.file, h.nodup⟩, prefixFrom_here _ _⟩
@@ -117,8 +117,9 @@ theorem cuts_from (initSize : Nat) : ∀ (ops : List Op) {d es tail}, Rep d es t
     intro d es tail h hf
     simp only [need] at hf
     obtain ⟨d1, tr1, es1, tail1, hs1, hr1, ht1, hu1, hk1, hfin1, hcuts1⟩ := op_cuts h op initSize (by omega)
-    obtain ⟨d2, tr2, hs2, hcuts2⟩ := ih hr1 (by rw [hk1, hu1]; omega)
-    refine ⟨d2, tr1 ++ tr2, by simp [runFrom, hs1, hs2, bind, Except.bind], ?_⟩
+    obtain ⟨d2, tr2, hs2, hfin2, hcuts2⟩ := ih hr1 (by rw [hk1, hu1]; omega)
+    refine ⟨d2, tr1 ++ tr2, by simp [runFrom, hs1, hs2, bind, Except.bind],
+      by rw [applyEffects_append, hfin1, hfin2], ?_⟩
     intro s hs
     rcases mem_states_append.mp hs with hs | hs
     · obtain ⟨file, rfl, hc⟩ := hcuts1 s hs
